@@ -22,6 +22,7 @@ a carry/borrow that is overwritten unread must be *proved* zero by the solver, o
 import os
 import re
 import subprocess
+import time
 import z3
 
 from .eir import ExecError, MemViolation, PathAbort, Ptr, Obj
@@ -100,6 +101,7 @@ class A64:
         self.on_cut = None             # callable(self, cut) run in the new context right after a cut (to state what is assumed there)
         self.queries = 0
         self.steps = 0
+        self.eager_wasted = 0.0
 
     # ------------------------------------------------------------------ state
     def start(self, symbol, args, objects):
@@ -277,8 +279,19 @@ class A64:
         self.C_unread = False
 
     def _prove(self, cond, timeout_ms=None):
+        """eager side proofs (dropped carries, zero low words).  A proof that fails or times out only leaves the word symbolic, so
+        these are bounded: EAGER_MS each, and none is attempted once EAGER_FAIL_S seconds have been spent on unsuccessful ones"""
+        if self.eager_wasted > self.EAGER_FAIL_S:
+            return False
         self.queries += 1
-        return self.L.prove(z3.Implies(z3.And(*self.pc), cond) if self.pc else cond, "", timeout_ms)
+        t0 = time.time()
+        ok = self.L.prove(z3.Implies(z3.And(*self.pc), cond) if self.pc else cond, "", min(timeout_ms or self.EAGER_MS, self.EAGER_MS))
+        if not ok:
+            self.eager_wasted += time.time() - t0
+        return bool(ok)
+
+    EAGER_MS = 5000
+    EAGER_FAIL_S = 20.0
 
     def _set_flags(self, C, lost, fl):
         self._drop_C()
